@@ -252,7 +252,7 @@ static void check_sequence(const Instance& f, int first_phase, int last_phase, b
   unsigned pos = 0;
   for (int ph = first_phase; ph <= last_phase; ++ph) {
     int expected = 0, cut_key = 1000;
-    if (consumable && g_consume_phase == ph && g_consumer >= 0 && g_consumer < VM_NS && spec_active(f, g_consumer)) cut_key = order_key(g_consumer, ph);
+    if (consumable && g_consume_phase == ph && g_consumer >= 0 && g_consumer < VM_NS && VM_HAS_STUB(g_consumer) && spec_active(f, g_consumer)) cut_key = order_key(g_consumer, ph);
     for (int s = 0; s < VM_NS; ++s) if (spec_active(f, s) && VM_HAS_STUB(s) && order_key(s, ph) <= cut_key) ++expected;
     int prev_key = -1;
     for (int k = 0; k < expected; ++k) {
@@ -411,12 +411,218 @@ static void body_history_enter() {
   const auto& hist = a.previousTransitions();
   Snapshot after; snap(a, after);
   Instance r(g_rng);
-  sync_monitor(r); g_guards_forbidden = true;
-  if (hist.count()) r.replayEnter(hist); else r.enter();
-  g_guards_forbidden = false;
+  sync_monitor(r);
+  if (hist.count()) { g_guards_forbidden = true; r.replayEnter(hist); g_guards_forbidden = false; } else r.enter();   // an activation that recorded nothing cannot be replayed (replayEnter refuses an empty list)
   if (hist.count()) {
     for (int c = 0; c < VM_NC; ++c) VASSERT(C09, r._core.registry.compoActive[c] == after.active[c], "replayEnter() reproduces the initial activation");
     VASSERT(C03, inv_monitor(r), "entered states == active states after replayEnter()");
+  }
+}
+#endif
+
+// ------------------------------------------------------------------------------------------------ C12: utility and weighted-random selection
+#ifdef VM_UTILITY
+// the answers of rank()/utility() are drawn BEFORE the call so that the documented preconditions can be assumed up front
+static void predraw_answers() {
+  for (int s = 1; s < VM_NS; ++s) {
+    g_rank_called[s] = true; g_rank_val[s] = nd_i8(); VASSUME(g_rank_val[s] >= 0 && g_rank_val[s] <= 1);
+    g_util_called[s] = true; g_util_val[s] = nd_f32(); VASSUME(g_util_val[s] >= 0.0f && g_util_val[s] <= 1000.0f);
+  }
+}
+static void body_utilize(int kind, int region) {              // kind: 4 = utilize(region), 0 = changeTo(region) for a region declared utilitarian
+  ARBITRARY_ACTIVE(f);
+  predraw_answers();
+  Snapshot old; snap(f, old);
+  call_immediate(f, kind, region);
+  post_invariant(f);
+  if (!g_round_cancelled) {
+    VASSERT(C12, spec_active(f, region), "the utilized region is active");
+    const Prong p = f._core.registry.compoActive[VM_SPEC[region].fork];
+    VASSERT(C12, p < VM_SPEC[region].width, "utilize activates a sub-state");
+    int chosen = -1; for (int c = region + 1; c < VM_NS; ++c) if (VM_SPEC[c].parent == region && VM_SPEC[c].prong == p) chosen = c;
+    for (int c = region + 1; c < VM_NS; ++c) if (VM_SPEC[c].parent == region && chosen >= 0) {
+      VASSERT(C12, g_util_val[c] <= g_util_val[chosen], "utilize activates the sub-state with the greatest utility");
+      if (VM_SPEC[c].prong < p) VASSERT(C12, g_util_val[c] < g_util_val[chosen], "utilize activates the FIRST sub-state on ties");
+    }
+  }
+}
+static void body_randomize(int kind, int region) {            // kind: 5 = randomize(region), 0 = changeTo(region) for a region declared random
+  ARBITRARY_ACTIVE(f);
+  predraw_answers();
+  int8_t top = -1; for (int c = region + 1; c < VM_NS; ++c) if (VM_SPEC[c].parent == region && g_rank_val[c] > top) top = g_rank_val[c];
+  bool positive = false; for (int c = region + 1; c < VM_NS; ++c) if (VM_SPEC[c].parent == region && g_rank_val[c] == top && g_util_val[c] > 0.0f) positive = true;
+  VASSUME(positive);                                           // documented precondition: positive top-rank utility sum
+  VREACH("randomize with a positive top-rank sum");
+  g_rng_draws_ = 0;
+  Snapshot old; snap(f, old);
+  call_immediate(f, kind, region);
+  if (!g_round_cancelled) {
+    const Prong p = f._core.registry.compoActive[VM_SPEC[region].fork];
+    VASSERT(C12/C01, p < VM_SPEC[region].width, "randomize never activates none");
+    int chosen = -1; for (int c = region + 1; c < VM_NS; ++c) if (VM_SPEC[c].parent == region && VM_SPEC[c].prong == p) chosen = c;
+    if (chosen >= 0) {
+      VASSERT(C12, g_rank_val[chosen] == top, "randomize considers only sub-states of the highest rank");
+      VASSERT(C12, g_util_val[chosen] > 0.0f, "randomize never activates a sub-state with zero utility");
+    }
+    VASSERT(C12, g_rng_draws_ == 1, "randomize consumes exactly one random number per random region it resolves");
+  }
+  post_invariant(f);
+}
+#endif
+
+// ------------------------------------------------------------------------------------------------ C06: plans
+#ifdef VM_PLANS
+struct PTask { int origin, dest, kind; };
+// plan shapes (origins/destinations are index-like: part of the case key)
+static int plan_shape(int shape, PTask out[3]) {
+  switch (shape) {
+    case 1: out[0] = {3, 4, 0}; return 1;                                   // B1 -> B2
+    case 2: out[0] = {3, 4, 0}; out[1] = {4, 5, 0}; return 2;               // chain B1 -> B2, B2 -> B3
+    case 3: out[0] = {3, 4, 0}; out[1] = {3, 5, 0}; return 2;               // two tasks on one origin
+    case 4: out[0] = {3, 3, 0}; return 1;                                   // cyclic task
+    case 5: out[0] = {3, 4, 1}; return 1;                                   // a RESTART task
+    case 6: out[0] = {4, 5, 0}; out[1] = {3, 4, 0}; return 2;               // first task's origin may be inactive: it blocks the rest
+    case 7: out[0] = {3, 4, 6}; return 1;                                   // a SCHEDULE task
+    default: return 0;
+  }
+}
+static void body_plan(unsigned cfg, int shape, int actor, int action) {
+  CONFIGURED(f, cfg);
+  PTask t[3]; const int n = plan_shape(shape, t);
+  { auto plan = f.plan((RegionID) VM_PLAN_REGION);
+    for (int i = 0; i < n; ++i) { bool ok = t[i].kind == 0 ? plan.change((StateID) t[i].origin, (StateID) t[i].dest) : t[i].kind == 1 ? plan.restart((StateID) t[i].origin, (StateID) t[i].dest) : plan.schedule((StateID) t[i].origin, (StateID) t[i].dest); VASSUME(ok); }
+    if (shape == 8) { plan.change(3, 4); plan.clearTasks(); } }                // an attached plan with no tasks left
+  g_actor = actor; g_action = action; g_issuer = -1; g_issuer2 = -1;
+  const bool acts = spec_active(f, actor);
+  const bool in_region = spec_is_ancestor_or_self(VM_PLAN_HEAD, actor) && actor != VM_PLAN_HEAD;
+  Snapshot old; snap(f, old);
+  // spec: which tasks are executed
+  bool exec[3] = {false, false, false}; int n_exec = 0, last_dest = -1, last_kind = 0;
+  if (acts && in_region && action == 1)
+    for (int i = 0; i < n; ++i) { if (!old.on[t[i].origin]) break; if (t[i].origin == actor) { exec[i] = true; ++n_exec; last_dest = t[i].dest; last_kind = t[i].kind; } }
+  f.update();
+  VASSERT(C01, inv_config(f) && inv_quiescent(f), "the configuration is well-formed after the step");
+  VASSERT(C03, inv_monitor(f), "entered states == active states after the step");
+  // remaining plan == initial plan minus the executed tasks, in order
+  { const Instance::Core::PlanData& d = f._core.planData; Long c = d.taskBounds[VM_PLAN_REGION].first; bool same = true;
+    for (int i = 0; i < n; ++i) if (!exec[i]) {
+      if (c >= Instance::Core::PlanData::TASK_CAPACITY) { same = false; break; }
+      same = same && d.tasks._items[c].origin == t[i].origin && d.tasks._items[c].destination == t[i].dest; c = d.taskLinks[c].next; }
+    if (!(acts && in_region && action == 2) && !(acts && in_region && action == 1 && n == 0))
+      VASSERT(C06, same && c == INVALID_LONG, "executed tasks are removed from the plan, and no other task is"); }
+  if (acts && in_region && action == 1 && n_exec > 0 && !g_round_cancelled) {
+    VREACH("a task is executed");
+    const auto& hist = f.previousTransitions();
+    VASSERT(C06, hist.count() == (unsigned) n_exec, "every task whose origin succeeded is executed exactly once");
+    if (hist.count() >= 1) {
+      const auto& tr = hist[hist.count() - 1];
+      VASSERT(C06, tr.destination == (StateID) last_dest, "the executed task requests a transition to the task's destination");
+      VASSERT(C06, (int) tr.type == last_kind, "the executed task requests a transition of the kind the task was created with");
+      VASSERT(C06, tr.origin == (StateID) VM_PLAN_HEAD, "the executed task's transition is requested on behalf of the region head");
+    }
+    if (last_kind != 6) VASSERT(C06, spec_active(f, last_dest), "the destination of the last executed task is active");
+  }
+  if (!(acts && in_region && action == 1 && n_exec > 0)) VASSERT(C06, f.previousTransitions().count() == 0, "no task is executed unless its origin is active and succeeded in this step");
+  const bool attached = n > 0 || shape == 8;
+  VASSERT(C06, g_plan_succeeded[VM_PLAN_HEAD] == ((acts && in_region && action == 1 && attached && n == 0) ? 1 : 0), "the head receives planSucceeded exactly when a sub-state succeeds and the attached plan has no tasks left");
+  VASSERT(C06, g_plan_failed[VM_PLAN_HEAD] == ((acts && in_region && action == 2 && attached) ? 1 : 0), "the head receives planFailed exactly when a sub-state fails");
+  for (int s = 1; s < VM_NS; ++s) {
+    VASSERT(C06, !f._core.planData.tasksFailures.get(s), "failure marks never survive the step");
+    if (!(shape == 4 && s == actor && false)) VASSERT(C06, !f._core.planData.tasksSuccesses.get(s) || (acts && action == 1 && s == actor && n_exec == 0 && in_region && attached && n > 0), "success marks survive only while their state waits for its task");
+  }
+}
+#endif
+
+// ------------------------------------------------------------------------------------------------ C14: payloads
+#ifdef VM_PAYLOAD
+static void body_payload(int d1, int has1, int d2, int has2) {         // d2 == 0: a single request
+  ARBITRARY_ACTIVE(f);
+  g_pay_n = d2 ? 2 : 1; g_pay_dest[0] = d1; g_pay_dest[1] = d2; g_pay_has[0] = has1 != 0; g_pay_has[1] = has2 != 0;
+  g_pay_val[0] = nd_i32(); g_pay_val[1] = nd_i32();
+  if (has1) f.changeWith((StateID) d1, g_pay_val[0]); else f.changeTo((StateID) d1);
+  if (d2) { if (has2) f.changeWith((StateID) d2, g_pay_val[1]); else f.changeTo((StateID) d2); }
+  g_issuer = -1; g_issuer2 = -1;
+  f.update();
+  VASSERT(C01, inv_config(f) && inv_quiescent(f), "the configuration is well-formed after the step");
+  if (!g_round_cancelled) {
+    VREACH("approved payload request");
+    St<1>::check_payloads(f.previousTransitions(), false);
+    VASSERT(C14, f.previousTransitions().count() == (unsigned) g_pay_n, "the history holds the step's requests with their payloads");
+    const int last = d2 ? 1 : 0; const int dl = d2 ? d2 : d1;
+    const Instance::Transition* t = f.lastTransitionTo((StateID) dl);
+    if (t) { if (g_pay_has[last]) VASSERT(C14, t->payload() && *t->payload() == g_pay_val[last], "lastTransitionTo() carries the payload of the activating request");
+             else VASSERT(C14, t->payload() == nullptr, "lastTransitionTo() of a payload-less request exposes none"); }
+  }
+}
+#endif
+
+// ------------------------------------------------------------------------------------------------ C16: logger and structure report
+#ifdef VM_LOGGER
+struct VLogger : Instance::Logger {
+  using Context = Instance::Logger::Context;
+  void recordMethod(const Context&, const StateID origin, const Method method) override {
+    if (g_log_len < sizeof g_log_state) { g_log_state[g_log_len] = (uint8_t) origin; g_log_method[g_log_len] = (uint8_t) method; } ++g_log_len; }
+  void recordTransition(const Context&, const StateID, const TransitionType type, const StateID target) override { ++g_log_transitions; g_log_last_target = target; g_log_last_type = (int) type; }
+  void recordCancelledPending(const Context&, const StateID) override { ++g_log_cancels; }
+};
+static VLogger g_logger;
+// log restricted to states that run user code == the trace of user callbacks
+static void check_log_mirrors_trace() {
+  unsigned k = 0;
+  for (unsigned i = 0; i < g_log_len && i < sizeof g_log_state; ++i) {
+    const int s = g_log_state[i];
+    if (s >= VM_NS || !VM_HAS_STUB(s)) continue;                 // verbose mode also reports states without user code (anonymous heads)
+    VASSERT(C16, k < g_trace_len && g_trace_state[k] == s && g_trace_method[k] == g_log_method[i], "the logger is told every user-defined callback, in the order it happens, with the right state");
+    ++k;
+  }
+  VASSERT(C16, k == g_trace_len, "every user-defined callback is reported to the logger exactly once");
+}
+static void body_logger(int kind, int dest) {
+  ARBITRARY_ACTIVE(f);
+  Instance g(g_rng); copy_configuration(g, f);                   // the same machine without a logger
+  f.attachLogger(&g_logger);
+  Snapshot old; snap(f, old);
+  call_immediate(f, kind, dest);
+  VASSERT(C16, g_log_transitions == 1 && g_log_last_target == dest && g_log_last_type == kind, "the transition request is reported exactly once with its kind and target");
+  VASSERT(C16, g_log_cancels == g_cancels_issued, "every cancellation is reported exactly once");
+  check_log_mirrors_trace();
+  post_invariant(f);
+}
+// attaching a logger never changes behaviour (guards approve: both runs take the same decisions)
+static void body_logger_neutral(int kind, int dest) {
+  ARBITRARY_ACTIVE(f);
+  Instance g(g_rng); copy_configuration(g, f);
+  f.attachLogger(&g_logger); g_deterministic = true;
+  call_immediate(f, kind, dest);
+  uint8_t ts[64], tm[64]; const unsigned n = g_trace_len; for (unsigned i = 0; i < 64; ++i) { ts[i] = g_trace_state[i]; tm[i] = g_trace_method[i]; }
+  Snapshot after; snap(f, after);
+  sync_monitor(g); g_deterministic = true;
+  call_immediate(g, kind, dest);
+  VASSERT(C16, same_config(g, after), "with and without a logger the same configuration results");
+  bool same = g_trace_len == n; for (unsigned i = 0; i < 64; ++i) if (i < n) same = same && ts[i] == g_trace_state[i] && tm[i] == g_trace_method[i];
+  VASSERT(C16, same, "with and without a logger the same callbacks run in the same order");
+}
+static void body_logger_update(unsigned cfg, int issuer, int kind, int dest) {
+  CONFIGURED(f, cfg); f.attachLogger(&g_logger);
+  g_issuer = issuer; g_issue_kind = kind; g_issue_dest = dest; g_issuer2 = -1;
+  f.update();
+  VASSERT(C16, g_log_transitions == g_requests_issued, "every transition request issued from a callback is reported exactly once");
+  VASSERT(C16, g_log_cancels == g_cancels_issued, "every cancellation is reported exactly once");
+  check_log_mirrors_trace();
+}
+#endif
+#ifdef HFSM2_ENABLE_STRUCTURE_REPORT
+static void body_structure(int kind, int dest) {
+  ARBITRARY_ACTIVE(f);
+  int8_t h[VM_NS]; for (int s = 0; s < VM_NS; ++s) { h[s] = nd_i8(); f._activityHistory[s] = h[s]; }
+  call_immediate(f, kind, dest);
+  for (int s = 0; s < VM_NS; ++s) {
+    const bool on = f.isActive((StateID) s);
+    VASSERT(C16, f.structure()[s].isActive == on, "structure()[id].isActive == isActive(id) after the step");
+    const int8_t a = f.activityHistory()[s];
+    VASSERT(C16, on ? a > 0 : a < 0, "activityHistory() is positive for active and negative for inactive states");
+    const int expected = on ? (h[s] < 0 ? 1 : (h[s] < 127 ? h[s] + 1 : 127)) : (h[s] > 0 ? -1 : (h[s] > -128 ? h[s] - 1 : -128));
+    VASSERT(C16, a == expected, "activityHistory() counts consecutive report updates in the same condition, saturating");
   }
 }
 #endif
